@@ -129,11 +129,13 @@ func RunHistory(s *Sim, p *Profile, mons []Monitor, stats *Stats, index int) {
 			}
 		}
 	} else if len(p.Templates) > 0 && r.Float64() < p.TplProb {
-		// try a few templates until one applies to this configuration
-		for try := 0; try < 4 && script == nil; try++ {
-			t := p.Templates[r.Intn(len(p.Templates))]
-			script = t.F(s)
-			tpl = t.Name
+		// go through the templates in a random order and take the first that applies to this configuration
+		for _, k := range r.Perm(len(p.Templates)) {
+			t := p.Templates[k]
+			if script = t.F(s); script != nil {
+				tpl = t.Name
+				break
+			}
 		}
 	}
 	if script != nil {
